@@ -128,7 +128,14 @@ func runHistory(spec *core.Spec, st *core.State, msgs []interface{}, rt func(i i
 					badType = why
 				}
 			}
-			w.DoEmitted(func(x interface{}) error { ps.Emitted = append(ps.Emitted, x); return nil })
+			w.DoEmitted(func(x interface{}) error {
+				ps.Emitted = append(ps.Emitted, x)
+				// a crew hands an emitted message to other machines as it is: what they bind from it becomes state
+				if ok, why := canonicalType(x); !ok && badType == "" {
+					badType = "emitted message: " + why
+				}
+				return nil
+			})
 			steps = append(steps, ps)
 		}
 	}()
